@@ -334,8 +334,8 @@ class Ctx(object):
                 f.write('From Coq Require Import String List ZArith Ascii Bool.\nImport ListNotations.\n'
                         'Require Import V.Lib.Harness.\n' + header + '\n')
                 # one definition per case keeps each term small for the parser
-                f.write('Definition cases := ' + clist(terms) + '.\n')
                 f.write('Definition chk := %s.\n' % checker)
+                f.write('Definition cases := cases_for chk ' + clist(terms) + '.\n')
                 f.write('Eval vm_compute in (mismatch_idx chk cases).\n')
             paths.append((off, p))
         listing = os.path.join(self.workdir, 'shards_%s.txt' % name)
